@@ -110,6 +110,7 @@ static int do_growth(void) {
   return fails != 0;
 }
 static int do_sersize(void) {
+  u64 nser = 0;
   static unsigned char payload[70000];
   static const u64 LS8[] = {0, 1, 23, 24, 100, 200, 230, 250, 252, 253, 254, 255};
   u64 n = 0;
@@ -127,6 +128,19 @@ static int do_sersize(void) {
       u64 want = hdr(l) + l, got = cbor_serialized_size(s);
       n++;
       if (!(got == want && want <= MAXV) && !(got == 0 && want > MAXV)) FAIL("cbor_serialized_size(%s of %llu bytes) = %llu, exact total %llu (max %llu)", text ? "text" : "bytes", l, got, want, MAXV);
+      /* the serializer proper, into exactly sized heap buffers (ASan red zones): every buffer size at w = 8, the boundary sizes at w = 16.
+       * Either the encoding fits and is written, or 0 - never a copy that proceeds on a wrapped "head + length" */
+      for (u64 bs = 0; bs <= MAXV; bs++) {
+        if (MAXV != 255 && !(bs <= 3 || bs + 2 >= want && bs <= want + 1 || bs + 2 >= MAXV || bs == l)) continue;
+        unsigned char* out = malloc(bs ? bs : 1);
+        memset(out, 0x5A, bs ? bs : 1);
+        u64 w = cbor_serialize(s, out, (size_t)bs);
+        nser++;
+        u64 expect = (want <= MAXV && bs >= want) ? want : 0;
+        if (w != expect) FAIL("cbor_serialize(%s of %llu bytes, buffer of %llu) = %llu, expected %llu", text ? "text" : "bytes", l, bs, w, expect);
+        else if (w && (out[0] >> 5 != (text ? 3 : 2) || (l && (out[w - 1] != 'a' || out[hdr(l)] != 'a')))) FAIL("cbor_serialize(%s of %llu bytes, buffer of %llu) wrote wrong bytes", text ? "text" : "bytes", l, bs);
+        free(out);
+      }
       cbor_decref(&s);
     }
   }
@@ -156,6 +170,7 @@ static int do_sersize(void) {
           for (int q = 0; q < 3; q++) cbor_decref(&it[q]);
         }
   printf("CNT sersize_cases %llu\n", n);
+  printf("CNT serialize_calls %llu\n", nser);
   return fails != 0;
 }
 int main(int argc, char** argv) {
